@@ -9,3 +9,7 @@ import InToto.Properties.C11
 #print axioms InToto.C11.facts_struct_tags
 #print axioms InToto.C11.facts_schema_is_model
 #print axioms InToto.C11.facts_payload_type
+#print axioms InToto.C11.link_encoding_injective
+#print axioms InToto.C11.layout_encoding_injective
+#print axioms InToto.C11.same_signed_bytes_same_link
+#print axioms InToto.C11.same_signed_bytes_same_layout
